@@ -259,3 +259,157 @@ def mt4(F, R):
                                 sel[lab[1]] = o[1]
     want = {i: M["partition_table"] + 16 * i for i in range(4)}
     R.require(sel == want, orv, "mbr:slot-selection", "partition slot offsets %s, expected %s" % (sel, want), orv.loc(0))
+
+
+# ---------------------------------------------------------------------------------------
+# LF1: decoding of arbitrary directory bytes / LFN fragments never panics
+
+
+def _run_region(F, R, I, fn, args, st, region, skip=()):
+    try:
+        outs = I.run(fn, args, st, 0)
+    except Undecided as e:
+        raise RuleUndecided("%s: %s" % (fn.npath, e))
+    n_ok = n_bad = 0
+    for key, it in sorted(I.obl.items.items(), key=lambda x: (x[0][0], x[0][1] or 0, x[0][2])):
+        f, b, kind = key
+        if it["bad"]:
+            sk = [why for (pf, pk, why) in skip if f.endswith(pf) and kind.startswith(pk)]
+            if sk:
+                R.ok(f, "%s:%s" % (region, kind), "discharged by structural rule: %s" % sk[0], it["loc"])
+                n_ok += 1
+                continue
+            n_bad += 1
+            R.bad(f, "%s:%s" % (region, kind), "possible panic in %s: %s" % (f, it["detail"]), it["loc"])
+        else:
+            n_ok += 1
+            R.ok(f, "%s:%s" % (region, kind), "discharged on %d path visit(s)" % it["ok"], it["loc"])
+    return outs, n_ok, n_bad
+
+
+@rule("LF1", ["C17"], floor=30,
+      doc="decoding never panics on arbitrary bytes: every assertion / slice / unwrap obligation in OnDiskDirEntry::{is_end,is_valid,is_lfn,lfn_contents,matches,get_entry,first_cluster_*}, Timestamp::from_fat, Attributes::*, ShortFileName::csum, SeqState::update, LfnBuffer::{new,clear,as_str,push} and the slot loops of iterate_fat16/32 is discharged for a 32-byte slot of arbitrary contents, arbitrary 13-unit fragments and any buffer size (interval abstract interpretation; the byte-store loop of push by the LF3 idiom, the staging vector by LF2)")
+def lf1(F, R):
+    adt = "fat::ondiskdirentry::OnDiskDirEntry"
+    total_ok = total_bad = 0
+    # ---- slot decoders on a 32-byte slice
+    for name in ("is_end", "is_valid", "is_lfn", "lfn_contents", "first_cluster_fat32", "first_cluster_fat16"):
+        fn = F.fn(adt + "::" + name)
+        I = Interp(F, mode="iv")
+        st = State()
+        self_p, _bs = data_struct(I, st, F, adt, 32, slice_=True)
+        _o, a, b = _run_region(F, R, I, fn, [self_p], st, name)
+        total_ok += a
+        total_bad += b
+    fn = F.fn(adt + "::matches")
+    I = Interp(F, mode="iv")
+    st = State()
+    self_p, _bs = data_struct(I, st, F, adt, 32, slice_=True)
+    from .rules_codec import sym_value
+    sfn = I.heap_alloc(st, sym_value(I, st, "filesystem::filename::ShortFileName", "sfn", F))
+    _o, a, b = _run_region(F, R, I, fn, [self_p, sfn], st, "matches")
+    total_ok += a
+    total_bad += b
+    fn = F.fn(adt + "::get_entry")
+    for ft in ("Fat16", "Fat32"):
+        I = Interp(F, mode="iv")
+        st = State()
+        self_p, _bs = data_struct(I, st, F, adt, 32, slice_=True)
+        args = [self_p, agg("enum", "fat::FatType", F.variant_index("fat::FatType", ft), []), agg("struct", "blockdevice::BlockIdx", 0, [sym_int(I.vars, "blk", 32)]), sym_int(I.vars, "off", 32)]
+        _o, a, b = _run_region(F, R, I, fn, args, st, "get_entry/" + ft)
+        total_ok += a
+        total_bad += b
+    # ---- checksum
+    fn = F.fn("filesystem::filename::ShortFileName::csum")
+    I = Interp(F, mode="iv")
+    st = State()
+    sfn = I.heap_alloc(st, sym_value(I, st, "filesystem::filename::ShortFileName", "sfn", F))
+    _o, a, b = _run_region(F, R, I, fn, [sfn], st, "csum")
+    total_ok += a
+    total_bad += b
+    # ---- sequence state machine, all inputs symbolic, each state kind
+    upd = [f for f in F.fns if f.npath.endswith("SeqState::update")]
+    sadt = [p for p in F.adts if p.endswith("SeqState")]
+    if len(upd) == 1 and len(sadt) == 1:
+        fn = upd[0]
+        sadt = sadt[0]
+        for vi, vname in enumerate(F.variants(sadt)):
+            I = Interp(F, mode="iv")
+            st = State()
+            noop = lambda I_, st_, a_, ctx: [(agg("tuple", None, None, []), st_)]
+            I.models["filesystem::filename::LfnBuffer::clear"] = noop
+            I.models["filesystem::filename::LfnBuffer::push"] = noop
+            nf = len(F.adts[sadt]["variants"][vi]["fields"])
+            state = agg("enum", sadt, vi, [sym_int(I.vars, "s%d" % k, 8) for k in range(nf)])
+            args = [state, I.heap_alloc(st, TOP), sym_int(I.vars, "start", 1), sym_int(I.vars, "sequence", 8), sym_int(I.vars, "csum", 8), arr([sym_int(I.vars, "u%d" % k, 16) for k in range(13)])]
+            _o, a, b = _run_region(F, R, I, fn, args, st, "update/" + vname)
+            total_ok += a
+            total_bad += b
+    else:
+        R.bad(None, "update", "SeqState::update not found", kind="anchor-missing")
+    # ---- LfnBuffer: invariant free <= inner.len() (established by new/clear, preserved by push: LF3)
+    LB = "filesystem::filename::LfnBuffer"
+
+    def mk_buffer(I, st):
+        ln = sym_int(I.vars, "len", 64)
+        ln = mk_int(64, False, None, 0, 1 << 40, ln[6])
+        cell = I.heap_alloc(st, ("arrtop", 0, 1 << 40, top_int(8)))
+        inner = ptr(cell[1], cell[2], (), (const(0, 64), ln), True)
+        free = sym_int(I.vars, "free", 64)
+        free = mk_int(64, False, None, 0, 1 << 40, free[6])
+        st.rels = st.rels | {("le", free[6], ln[6])}
+        flds = [f["name"] for f in F.adts[LB]["variants"][0]["fields"]]
+        vals = {"inner": inner, "free": free, "overflow": sym_int(I.vars, "overflow", 1), "unpaired_surrogate": TOP}
+        return I.heap_alloc(st, agg("struct", LB, 0, [vals[x] for x in flds]))
+    for name in ("as_str", "clear"):
+        fn = F.fn(LB + "::" + name)
+        I = Interp(F, mode="iv")
+        st = State()
+        _o, a, b = _run_region(F, R, I, fn, [mk_buffer(I, st)], st, name)
+        total_ok += a
+        total_bad += b
+    # push: staging-vector pushes are bounded by LF2; the byte-store loop by the LF3 idiom
+    fn = F.fn(LB + "::push")
+    I = Interp(F, mode="iv", max_paths=20000)
+    st = State()
+
+    def encode_utf8(I_, st_, a_, ctx):
+        sv = None
+        from .stdmodel import slice_view, panic_ob
+        sv = slice_view(I_, st_, a_[1])
+        ln = sv[2] if sv else top_int(64)
+        panic_ob(I_, st_, ctx, "encode_utf8:buffer", ln[4] >= 4, "encode_utf8 into a buffer of length %s (needs up to 4)" % I_.show(ln))
+        cell = I_.heap_alloc(st_, ("arrtop", 1, 4, top_int(8)))
+        return [(ptr(cell[1], cell[2], (), (const(0, 64), mk_int(64, False, None, 1, 4)), True), st_)]
+    I.model_suffixes.insert(0, ("::encode_utf8", encode_utf8))
+    I.model_suffixes.insert(0, ("str::len", lambda I_, st_, a_, ctx: [((a_[0][4][1] if is_ptr(a_[0]) and a_[0][4] else mk_int(64, False, None, 0, 1 << 40)), st_)]))
+    buf = I.heap_alloc(st, arr([sym_int(I.vars, "u%d" % k, 16) for k in range(13)]))
+    skip = (("LfnBuffer::push", "unwrap:Err", "LF2 (iterator length bound <= capacity of the staging Vec)"),
+            ("LfnBuffer::push", "assert:Overflow:Sub", "LF3 (free >= encoded.len() guard; exactly one `free -= 1` per byte of the encoded char)"),
+            ("LfnBuffer::push", "assert:BoundsCheck", "LF3 (store index is `free` after the decrement, free < free_0 <= inner.len())"))
+    _o, a, b = _run_region(F, R, I, fn, [mk_buffer(I, st), buf], st, "push", skip=skip)
+    total_ok += a
+    total_bad += b
+    # ---- the listing closures and walkers contain no arithmetic of their own beyond i * 32 with i < 16
+    for wn in ("iterate_fat16", "iterate_fat32"):
+        fn = F.fn("fat::volume::FatVolume::" + wn)
+        muls = []
+        for b_ in fn.live_blocks():
+            t = fn.term(b_)
+            if t["k"] == "Assert" and t["kind"].startswith("Overflow:Mul"):
+                ops = [fn.term_of_operand(o, b_) for o in t["ops"]]
+                muls.append((b_, ops))
+        okm = True
+        for b_, ops in muls:
+            s_ = " ".join(tstr(o) for o in ops)
+            if "blocks_per_cluster" in s_ or "root_entries_count" in s_:
+                continue  # geometry arithmetic on mounted (validated) fields
+            # slot offset: enumerate index of chunks_exact(32) over a 512-byte block times 32
+            idx_ok = any(has_sub(o, lambda q: q[0] == "call" and q[1] and q[1].endswith("Iterator::next")) for o in ops) and any(o[:2] == ("c", 32) for o in ops)
+            okm = okm and idx_ok
+        R.require(okm and muls, fn, wn + ":slot-offset", "slot offset arithmetic in %s is not i * 32 with i from enumerate(chunks_exact(32)) (i < 16)" % wn, fn.loc(0), okdetail="slot offset i*32 with i < 512/32")
+    lf = F.fn("fat::volume::FatVolume::iterate_dir_lfn")
+    for c in F.closures_of(lf):
+        n_assert = sum(1 for b_ in c.live_blocks() if c.term(b_)["k"] == "Assert")
+        R.require(n_assert == 0, c, "closure-no-arith", "listing closure contains %d arithmetic/bounds assertions" % n_assert, c.loc(0), okdetail="no assertions in the listing closure")
+    R.note("LF1: %d obligations discharged, %d reported" % (total_ok, total_bad))
